@@ -207,6 +207,8 @@ func registry() map[string]PropSpec {
 				What: "DecodeYAML, Map[string,string].UnmarshalOrdered, MarshalJSON and MarshalYAML keep document order for every key set (0-2-byte keys incl. the empty key)"},
 			{Pkg: "ordered", Name: "c08_roundtrip", Quick: map[string]int{"entries": 3, "ops": 1}, Thorough: map[string]int{"entries": 4, "ops": 2}, Unwind: [2]int{32, 48},
 				What: "a programmatically built ordered map (Set of up to `entries` keys, nested one level, then up to `ops` Delete/Replace operations that leave tombstoned slots at the front, middle or end) survives json.Marshal -> yaml.Unmarshal -> DecodeYAML and MarshalYAML -> DecodeYAML with keys, values and order (ordered.Equal)"},
+			{Pkg: "ordered", Name: "c08_exotic_keys", Quick: map[string]int{}, Unwind: [2]int{32, 48},
+				What: "an ordered map (one level nested) whose keys are 1-2 symbolic bytes over the whole of \\x01-\\x7f (quotes, backslashes, control characters, DEL): json.Marshal succeeds (text written by MarshalJSON is read with the JSON string grammar, as encoding/json validates it), the object has exactly those keys in order, and the YAML node leg gives an Equal map"},
 			{Pkg: "ordered", Name: "c07_merge_chain", Quick: map[string]int{"typedkeys": 0}, Unwind: [2]int{32, 32},
 				What: "merged keys stand where the merge key stood (shared with C07: order is part of the reference comparison)"},
 			{Pkg: "ordered", Name: "c07_reexpand", Quick: map[string]int{}, Unwind: [2]int{32, 32},
@@ -313,6 +315,9 @@ func registry() map[string]PropSpec {
 			{Pkg: ".", Name: "c13_steps", ThoroughOnly: true, Quick: map[string]int{"entries": 3, "depth": 0, "short": 1}, Unwind: [2]int{64, 64}, Budget: [2]int{120, 3000},
 				Models: []string{"net/url.Parse=vpModelURLParse", "path.Join=vpModelPathJoin"},
 				What:   "thorough tier only: three entries per step sequence, with the symbolic scalar and type strings shortened to <= 1 byte"},
+			{Pkg: ".", Name: "c13_exotic_keys", Quick: map[string]int{}, Unwind: [2]int{64, 64}, Budget: [2]int{120, 1500},
+				Models: []string{"net/url.Parse=vpModelURLParse", "path.Join=vpModelPathJoin", "github.com/buildkite/interpolate.Interpolate=vpModelInterpolate"},
+				What:   "mapping keys of 1-2 symbolic bytes over \\x01-\\x7f (quotes, backslashes, control characters, DEL) wherever a mapping is kept verbatim (unknown step, env block, nested unknown field of a step, top-level extra): a usable result marshals to JSON (text written by MarshalJSON methods is validated with the JSON string grammar) and to YAML"},
 			{Pkg: ".", Name: "c13_long", Quick: map[string]int{"max": 24}, Thorough: map[string]int{"max": 96}, Unwind: [2]int{256, 512}, Budget: [2]int{120, 1500},
 				Models: []string{"net/url.Parse=vpModelURLParse", "path.Join=vpModelPathJoin"},
 				What:   "long step lists (top level or inside a group) of identical unknown-kind, malformed-field or command entries at boundary sizes: every size c-1, c, c+1 for the integer constants 2 < c <= max that occur in the current SSA of steps.go, step_group.go, step.go, parser.go and pipeline.go, and max itself: one step per entry, expected kinds, one warning leaf per fallback, JSON marshalling succeeds"},
